@@ -28,9 +28,9 @@ import inspect, warnings, numbers, contextlib
 import numpy as np
 
 PROP = 'C17'
-GENERATED = ['ParsDispatch', 'ParsRefs']
+GENERATED = ['ParsDispatch', 'ParsRefs', 'ParsSimLevel']
 DRIVER = 'Drivers/C17.lean'
-DRIVER_MODULES = ['StarsimModel.Model.Pars', 'StarsimModel.Model.ParsDeep', 'StarsimModel.Model.ParsRefs', 'StarsimModel.Generated.ParsRefs', 'StarsimModel.Model.Proto']
+DRIVER_MODULES = ['StarsimModel.Model.Pars', 'StarsimModel.Model.ParsDeep', 'StarsimModel.Model.ParsRefs', 'StarsimModel.Generated.ParsRefs', 'StarsimModel.Model.ParsSim', 'StarsimModel.Generated.ParsSimLevel', 'StarsimModel.Model.Proto']
 RULE = ('exhaustive: every constructible class of ss.find_modules() x every parameter x 19 new-value kinds (direct update and '
         'constructor route), a probe module covering the remaining old kinds (full 23 x 19 table), unknown keys at 9 routes x '
         'sampled classes, 7 spellings x every registered name; seeded part: sentinel values, sampled classes for routes, '
@@ -572,6 +572,9 @@ def correspond(ctx):
     # ---- (4c) round 3: name-keyed parameters resolved at init (beta maps), ownership of caller-supplied dicts -----------
     from harness.props import c17_refs
     c17_refs.round3_cases(ctx, ask)
+    # ---- (4d) round 4: sim-level shortcut parameters and derived settings (validate_demographics) ----------------------
+    from harness.props import c17_simlevel
+    c17_simlevel.round4_cases(ctx, ask)
 
     # ---- (5) inputs copied -----------------------------------------------------------------------------------------
     def cb_copy(ml):
@@ -1707,6 +1710,8 @@ def search(ctx):
     round2_search(ctx, targets)
     from harness.props import c17_refs
     c17_refs.round3_search(ctx, targets)
+    from harness.props import c17_simlevel
+    c17_simlevel.round4_search(ctx)
     # (a) applied or rejected: sampled over class x parameter x kind x route (exhaustive when something broke / thorough)
     pool = []
     for cls, probe in targets:
@@ -1807,6 +1812,9 @@ def replay(ctx, data):
     from harness.props import c17_refs
     r3 = c17_refs.replay(ctx, data)
     if r3 is not None: return r3
+    from harness.props import c17_simlevel
+    r4 = c17_simlevel.replay(ctx, data)
+    if r4 is not None: return r4
     k = data.get('kind')
     if k == 'apply':
         return bool(oracle_apply(resolve_cls(data['cls'], data.get('probe')), data['par'], data['nk'], data['tok'], data['route'], data.get('probe', False)))
